@@ -17,7 +17,8 @@ RULE = ("K: tiny closed periodic boxes (3..5 cells per axis, also non-cubic) bui
         "with the model's nyqStep. Independent oracles on the real code: zero-coefficient cells update exactly like the "
         "non-dispersive twin; P_curr' = c1 P + c2 P_prev + c3 E (+ c4 E'); a run whose poles all have zero strength "
         "equals the plain run; media near the coupled stability bound either draw a warning or keep the field energy "
-        "within 10x over 10^4 steps (random initial E). non-trivial = scene with an inner block, >1 pole, c4, "
+        "within 10x over 10^4 steps (random initial E). Every run starts with 3 directed scenes: a CCPR pole with complex "
+        "residue present (c4 allocated) and conductive cells with eps != 1 inside and outside the dispersive region. non-trivial = scene with an inner block, >1 pole, c4, "
         "conductivity, per-axis poles or a near-bound medium.")
 
 SIG_UNCHECKED = "coupled-yee-ade-instability-accepted-silently"
@@ -326,6 +327,8 @@ def growth(scene, steps=10000, limit=1e3):
     m = M()
     jnp, jax = m["jnp"], m["jax"]
     oc, arrays, cfg, wl, mats = build(scene)
+    if wl:                      # not accepted silently: the property says nothing, no need to run
+        return 0.0, 0, wl
     rng = np.random.default_rng(scene["seed"])
     arrays = arrays.aset("fields->E", jnp.asarray(rng.standard_normal(arrays.fields.E.shape)))
     key = jax.random.PRNGKey(0)
@@ -438,15 +441,37 @@ def gen_scene(rng, i):
     return sc
 
 
+def directed_scenes(rng):
+    """always part of the run: a CCPR pole with complex residue somewhere in the scene (c4 allocated -> implicit divide in
+    EVERY cell), conductive cells with eps != 1 both inside and outside the dispersive region; also a per-axis tier"""
+    out = []
+    for k in range(3):
+        ccpr = {"eps": rng.uniform(1.5, 4.0), "sigma": rng.uniform(2e4, 2e5),
+                "poles": [gen_pole(rng, "ccpr")] + ([gen_pole(rng, "lor")] if k == 1 else [])}
+        ccpr["poles"][0]["rre"] = rng.choice([-1, 1]) * rng.uniform(0.02, 0.08)       # Re(residue) != 0 -> c4 != 0
+        plain = {"eps": rng.uniform(1.5, 4.0), "sigma": rng.uniform(2e4, 2e5), "poles": None}
+        if k == 2:      # per-axis poles + conductivity, no c4: explicit branch with the loss divide
+            ccpr["poles"] = [gen_pole(rng, "dru3"), gen_pole(rng, "lor")]
+        shape = [[3, 3, 3], [3, 4, 3], [4, 3, 3]][k]
+        sc = {"cf": rng.uniform(0.5, 0.99), "shape": shape, "seed": rng.randint(0, 10 ** 6), "steps": 4,
+              "tier": "c4" if k < 2 else "axes", "layout": "directed-lossy",
+              "bg": ccpr if k != 1 else plain,
+              "block": {"size": [1, 2, 2], "at": [1, 0, 1], "mat": plain if k != 1 else ccpr}}
+        out.append(sc)
+    return out
+
+
 def nontrivial_key(sc):
     np_ = len(sc["bg"]["poles"] or []) + len(((sc.get("block") or {}).get("mat") or {}).get("poles") or [])
     return (sc["tier"], sc["layout"], np_, bool(sc["bg"].get("sigma")), tuple(sc["shape"]))
 
 
 def run(ctx):
-    n = ctx.scale(8, 60)
-    for i in range(n):
-        sc = gen_scene(ctx.rng, i)
+    n = ctx.scale(6, 60)
+    scenes = directed_scenes(ctx.rng) + [gen_scene(ctx.rng, i) for i in range(n)]
+    if ctx.thorough:
+        scenes += [s2 for _ in range(4) for s2 in directed_scenes(ctx.rng)]
+    for i, sc in enumerate(scenes):
         d = check_scene(ctx, sc)
         ctx.case(sample=sc if i == 1 else None, nontrivial=nontrivial_key(sc) if (sc["layout"] != "bg" or sc["tier"] != "iso") else None,
                  op="cellStep", tier=sc["tier"], layout=sc["layout"], shape="x".join(map(str, sc["shape"])))
@@ -484,6 +509,10 @@ def run(ctx):
         sc = {"cf": cf, "shape": [4, 4, 4], "seed": ctx.rng.randint(0, 999), "steps": 0, "bg": {"eps": eps, "poles": poles}}
         if i % 4 == 3:          # dispersive block in vacuum instead of a homogeneous box
             sc = dict(sc, bg={"eps": 1.0, "poles": None}, block={"size": [2, 4, 2], "at": [1, 0, 1], "mat": {"eps": eps, "poles": poles}})
+        if i == 1:      # per-axis Drude: only the z axis is beyond the bound (measure 0.81 + 0.81) -> must not be silent
+            sc = {"cf": 0.9, "shape": [4, 4, 4], "seed": 1, "steps": 0,
+                  "bg": {"eps": 1.0, "poles": [{"kind": "dru3", "wp": [0.3, 0.3, 1.8], "g": [0.0, 0.0, 0.0]}]}}
+            tg = 1.62
         if i == 0:      # just below the bound: stable, but the transient gain exceeds 10 -> must not be accepted silently
             sc = {"cf": 0.99, "shape": [4, 4, 4], "seed": 0, "steps": 0, "bg": {"eps": 1.0, "poles": [{"kind": "dru", "wp": 0.2805, "g": 0.0}]}}
             tg = 0.9998
